@@ -3,7 +3,8 @@ import AioslskVerif.Proofs.Expect
 # C12 — a reply completes exactly the requests it answers; a timeout is a timeout
 
 Property theorems only (model: `Model/Expect.lean`, helpers: `Proofs/Expect.lean`).  The model is the
-code **with** `fixes/C12-done-guards.patch` and `fixes/C12-predicate-fields.patch` applied.
+code **with** `fixes/C12-done-guards.patch`, `fixes/C12-predicate-fields.patch` and
+`fixes/C12-execute-cancel-during-send.patch` applied.
 `run ops` is the state after any list of operations (requests created, callers starting to await,
 messages, timeouts, task/future cancellations, failing sends, scheduled callbacks run one at a
 time) — i.e. any schedule; a waiter's identity is its index in `ws`.
@@ -25,7 +26,7 @@ theorem C12_matcher_spec (m : Matcher) (μ : Msg) :
 theorem C12_no_internal_error (ops : List Op) :
     (run ops).err = 0 ∧ ∀ (k : Nat) (w : Waiter), (run ops).ws[k]? = some w → w.out ≠ .invalidState := by
   have hi := inv_run ops
-  exact ⟨hi.e, fun k w hk => (hi.w k w hk).2.2.2.2.2.2.2.2⟩
+  exact ⟨hi.e, fun k w hk => (hi.w k w hk).2.2.2.2.2.2.2.2.1⟩
 
 /-- A pending request is never dropped from the list (so every later message is tried on it). -/
 theorem C12_pending_is_listed (ops : List Op) (k : Nat) (w : Waiter)
@@ -129,6 +130,39 @@ theorem C12_no_residue (ops : List Op) :
   rw [hq] at this
   cases this
 
+/-- A request whose caller has got its answer (result, `TimeoutError`, `CancelledError`, the error of
+a failed / cancelled `send`) is never left pending — in particular `execute()` cancelled while it is
+suspended in `command.send` (`sendFails k true`) does not leave a request that nobody waits for. -/
+theorem C12_caller_gone_not_pending (ops : List Op) (k : Nat) (w : Waiter)
+    (hk : (run ops).ws[k]? = some w) (ho : w.out ≠ .none) : w.fut ≠ .pending :=
+  ((inv_run ops).w k w hk).2.2.2.2.2.2.2.2.2.1 ho
+
+/-- … hence, once the scheduled callbacks have run, it is not in the list any more. -/
+theorem C12_caller_gone_not_listed (ops : List Op) :
+    let s := run (ops ++ List.replicate (run ops).cbq.length Op.cb)
+    ∀ (k : Nat) (w : Waiter), s.ws[k]? = some w → w.out ≠ .none → w.listed = false := by
+  intro s k w hk ho
+  have hres := (C12_no_residue ops).2 k w hk
+  have hnp := C12_caller_gone_not_pending _ k w hk ho
+  cases hl : w.listed with
+  | false => rfl
+  | true => exact absurd (hres hl) hnp
+
+/-- `command.send` raising (or being cancelled) inside `execute` ends the request at once. -/
+theorem C12_aborted_send_ends_request (ops : List Op) (k : Nat) (w : Waiter) (c : Bool)
+    (hk : (run ops).ws[k]? = some w) (hkind : w.kind = .exec) (hs : w.started = false) :
+    ∃ w', (run (ops ++ [.sendFails k c])).ws[k]? = some w' ∧ w'.fut ≠ .pending ∧
+      w'.out = (if c then .cancelled else .sendError) := by
+  have hlt : k < (run ops).ws.length := (List.getElem?_eq_some_iff.mp hk).1
+  have hrun : run (ops ++ [.sendFails k c]) = step (run ops) (.sendFails k c) := by simp [run, List.foldl_append]
+  refine ⟨{ (cancelW k w).1 with started := true, out := if c then .cancelled else .sendError }, ?_, ?_, rfl⟩
+  · rw [hrun]
+    simp only [step, hk, hkind, hs, decide_true, Bool.not_false, Bool.and_self, if_true, State.put]
+    simp [hlt]
+  · rcases cancelW_cases k w with ⟨_, hc⟩ | ⟨hp, hc⟩ <;> rw [hc]
+    · simp
+    · exact hp
+
 /-! Non-vacuity: concrete reachable states (matcher with a predicate field followed by a constant). -/
 
 def exMatcher : Matcher := { cls := .server, msg := 1, peer := none, fields := [(4, .pred fun _ => true), (5, .const (.v 7))] }
@@ -147,5 +181,9 @@ example : ((run [.create .wait exMatcher, .awaitF 0, .timeout 0, .message exGood
 -- reply and timeout in the same iteration
 example : ((run [.create .wait exMatcher, .awaitF 0, .message exGood, .timeout 0, .cb, .cb]).ws.map
     fun w => (w.fut, w.listed, w.out)) = [(.result 0, false, .timeout)] := by decide
+
+-- execute(): registered, suspended in send, task cancelled there; the reply arrives afterwards: nobody is listed
+example : ((run [.create .exec exMatcher, .sendFails 0 true, .cb, .message exGood]).ws.map
+    fun w => (w.fut, w.listed, w.out)) = [(.cancelled, false, .cancelled)] := by decide
 
 end AioslskVerif.C12
